@@ -2,8 +2,8 @@
 import io
 from vfam import *  # noqa
 
-THEOREMS = ["C02_sequence_offsets", "C02_sequence_fixed", "C02_container_offsets", "C02_uint", "C02_bool", "C02_length_within_bounds", "C02_constructed"]
-PARTIAL = ["C02_constructed is the full statement for every type, but for backings built by the constructor; backings reached by mutation (set / append / pop / field assignment) are covered by the theorem only where C04 shows the mutated tree is again a representation (composite-element lists), otherwise by the correspondence (encode_bytes, serialize(stream) bytes+count, bytes()) on random / boundary / full values and after mutation histories (C04 harness)"]
+THEOREMS = ["C02_sequence_offsets", "C02_sequence_fixed", "C02_container_offsets", "C02_uint", "C02_bool", "C02_length_within_bounds", "C02_constructed", "C02_any_representation"]
+PARTIAL = ["C02_constructed / C02_any_representation are full statements for every type: the constructor's tree and ANY representation of a value serialise to the spec bytes; backings produced by mutations that C04 does not yet show to preserve representation (pop, packed / bit operations, union change) and the Python glue (encode_bytes, serialize(stream), bytes()) are covered by the correspondence, also after mutation histories (C04 harness)"]
 COQ_IMPORTS = ["RM.Types", "RMR.RunV"]
 COQ_FN = "RunV.run_c02"
 COQ_CASE_TY = "(ty * val)"
